@@ -18,6 +18,7 @@ func init() {
 	register(&Prop{ID: "C06", Run: runC06,
 		Technique: "static analysis: writer/reader constant agreement (layout vs sort-key regexp evaluated on the extracted constants), interprocedural value-flow of glob patterns and destructive paths, dominance guards (go/ssa)",
 		Decided: []string{
+			"what the history store hashes into the per-DAG directory key is the path argument itself (C06.key-injective); a path looked up by name reaches a destructive operation only through the function computing that key (C06.isolation)",
 			"the history store derives days from the wall clock the file names carry: no Truncate/Round to 24h or more, no UTC()/In() (C06.day-is-calendar-day)",
 			"the sort key extracted from a history file name distinguishes two runs that differ in the finest unit of the layout the name is written with; the date-only layout is a prefix of it (C06.key-covers-layout)",
 			"DAG-name-derived text reaching filepath.Glob passes through a glob-escaping function (C06.glob-injection)",
@@ -39,7 +40,8 @@ func init() {
 
 func runC06(e *Env) {
 	c06KeyCoversLayout(e)
-	c06CalendarDay(e)
+	c06CalendarDay(e, "C06.day-is-calendar-day")
+	c06KeyInjective(e)
 	c06Glob(e)
 	c06Isolation(e)
 	c06Retention(e)
@@ -316,6 +318,19 @@ func c06Isolation(e *Env) {
 			}
 			return e.StaticCallSites(f)
 		}}
+	// the function(s) keying the per-DAG directory: what hashes the path
+	keyFns := map[string]bool{}
+	for _, f := range e.RepoFuncsSorted() {
+		if rootFn(f).Package() != sp {
+			continue
+		}
+		if len(ir.CallsIn(f, func(c *ssa.CallCommon) bool {
+			cn := ir.CalleeName(c)
+			return cn == "crypto/md5.New" || cn == "crypto/md5.Sum" || cn == "crypto/sha1.Sum" || cn == "crypto/sha256.Sum256" || cn == "crypto/sha256.New"
+		})) > 0 {
+			keyFns[ir.FuncName(f)] = true
+		}
+	}
 	for _, f := range e.RepoFuncsSorted() {
 		if rootFn(f).Package() != sp {
 			continue
@@ -337,6 +352,7 @@ func c06Isolation(e *Env) {
 			check := func(arg ssa.Value) (bool, []string) {
 				var srcs []string
 				fromParam := false
+				keyed := false
 				var walkLeaves func(ls []ir.Leaf, depth int)
 				walkLeaves = func(ls []ir.Leaf, depth int) {
 					for _, l := range ls {
@@ -344,6 +360,17 @@ func c06Isolation(e *Env) {
 						case "param":
 							if isAPIParam(l.V) {
 								fromParam = true
+								// ... through the function that keys the per-DAG directory by a hash of the path
+								for _, v := range l.Via {
+									if keyFns[v] {
+										keyed = true
+									}
+								}
+								// the caller's own file handed in as it is (Compact(file)): nothing was
+								// looked up by name, so there is nothing to key
+								if len(l.Via) == 0 && depth == 0 {
+									keyed = true
+								}
 							}
 							srcs = append(srcs, "param "+l.Name)
 						case "call":
@@ -357,12 +384,16 @@ func c06Isolation(e *Env) {
 							srcs = append(srcs, "field "+l.Name)
 							if l.Name == "writer.target" || l.Name == "target" {
 								// the open run's own file, derived from Open(dagFile, …) (see C06.isolation writer-target below)
-								fromParam = true
+								fromParam, keyed = true, true
 							}
 						}
 					}
 				}
 				walkLeaves(tr.Trace(arg), 0)
+				if fromParam && !keyed && len(keyFns) > 0 {
+					srcs = append(srcs, "NOT through the hash-keyed per-DAG directory")
+					return false, dedupe(srcs)
+				}
 				return fromParam, dedupe(srcs)
 			}
 			ok, srcs := check(ci.Common().Args[0])
